@@ -197,7 +197,7 @@ def cases(c):
                     for crit in [None] + CRITERIA:
                         out.append({'N': N, 'order': order, 'cplx': cplx, 'kind': 'noise', 'crit': crit,
                                     'cont': 'array', 'directed': crit is None})
-    # witness of the open finding F18 (AICc / AKICc divide by N-k-2 = 0 at order N-2)
+    # witness of finding F18 (repaired): AICc / AKICc divide by N-k-2 = 0 at order N-2
     for crit in ('AICc', 'AKICc'):
         out.append({'N': 4, 'order': 2, 'cplx': 0, 'kind': 'literal', 'values': [1, -0.9, 0.8, -0.7], 'crit': crit,
                     'cont': 'array', 'directed': True})
